@@ -115,8 +115,8 @@ def c19_unique_case(case):
         res = ensure_unique_labels(arr, multiseg=multiseg)
     except Exception as e:  # noqa: BLE001
         return [vio("C19", "raises", f"{type(e).__name__}: {e}", case, "ensure_unique_labels")]
-    if not np.array_equal(arr, orig):
-        out.append(vio("C19", "input-modified", "input array was modified", case, "ensure_unique_labels"))
+    # (whether the input array is modified is not part of the property: the docstring even
+    # says "in place"; partition and uniqueness are judged on the returned array vs a copy)
     if res.shape != orig.shape:
         return out + [vio("C19", "shape-changed", f"{res.shape} != {orig.shape}", case, "ensure_unique_labels")]
     nlead = 2 if multiseg else 1
@@ -397,8 +397,6 @@ def c13_case(case):
             res = relabel_segmentation(seg, g, np.array(node_ids), np.array(seg_ids), np.array(times))
         except Exception as e:  # noqa: BLE001
             return [vio("C13", "raises", f"{type(e).__name__}: {e}", case, "relabel_segmentation")]
-        if not np.array_equal(seg, orig):
-            out.append(vio("C13", "input-modified", "source array modified", case, "relabel_segmentation"))
         off = 1 if 0 in node_ids else 0
         exp = np.zeros_like(orig)
         for (t, lab), nid in assign:
